@@ -17,7 +17,7 @@ RULE = ("(1) decoder co-simulation, exhaustive: all 2^18 combinations of the rel
 ASSUMPTIONS = ["assembly implementations (sandy2x: AVX; xmm6 Salsa20: x86-64 baseline) have their ISA requirement stated by hand in tools/c2lean_pickers.py",
                "architectural closure of feature sets (avx512f -> avx2 -> avx -> sse4.1 -> ssse3 -> sse3 -> sse2, aesni/pclmul -> sse2) is a hypothesis of selection soundness",
                "32-bit and big-endian targets are reached only as source paths (noti / portable variants) on this x86-64 host"]
-SOURCES = ["c14", "c16", "c15", "c03", "c04", "c01", "c18", "c05", "c06", "c07", "c13"]
+SOURCES = ["c14", "c16", "c15", "c03", "c04", "c01", "c18", "c05", "c06", "c07", "c13", "c08"]
 
 
 def configs(tier):
@@ -47,8 +47,12 @@ def gen(ctx, tier, rng):
         # ops on which a recorded known finding (of another property) makes the implementation deviate from the model are left to that property's check
         kf = [re.compile(f["op_pattern"]) for f in vcore.known_findings() if f.get("status") == "known" and f.get("op_pattern")]
         ls = [l for l in ls if not any(k.search(l) for k in kf)]
-        lines += ls[::step]
-        ctx.stats.setdefault("corpus_by_source", {})[name] = len(ls[::step])
+        if name == "c08":    # the value-producing password-hashing ops are the backend-sensitive ones (Argon2 fill code, scrypt SSE / portable): keep them all
+            pick = [l for l in ls if l.split(" ")[0] in ("pwhash.raw", "pwhash.str", "scrypt.raw", "scrypt.ll", "scrypt.str")] + [l for l in ls if l.split(" ")[0] not in ("pwhash.raw", "pwhash.str", "scrypt.raw", "scrypt.ll", "scrypt.str")][::step * 4]
+        else:
+            pick = ls[::step]
+        lines += pick
+        ctx.stats.setdefault("corpus_by_source", {})[name] = len(pick)
     return lines
 
 
